@@ -3630,6 +3630,14 @@ static Token *function(Token *tok, Type *basety, VarAttr *attr) {
   if (consume(&tok, tok, ";"))
     return tok;
 
+  // 'int f(void), g(int), x;': more declarators of the same declaration
+  if (equal(tok, ",")) {
+    if (is_function(tok->next, basety))
+      return function(tok->next, basety, attr);
+    if (!scope->next)
+      return global_variable(tok->next, basety, attr);
+  }
+
   current_fn = fn;
   locals = NULL;
   enter_scope();
